@@ -109,6 +109,31 @@ def import_sut():
     return root
 
 
+def variant():
+    """'' or 'strict': the interpreter configuration this process stands for
+    (see DESIGN.md 3.8).  'strict' = python -O (assert statements and
+    `if __debug__` blocks are compiled away) with warnings turned into
+    errors."""
+    return os.environ.get('VERIF_VARIANT', '')
+
+
+def apply_variant():
+    """Called once the SUT and the harness have been imported."""
+    if variant() != 'strict':
+        return
+    if not sys.flags.optimize:
+        raise HarnessError('VERIF_VARIANT=strict needs python -O')
+    import warnings
+    warnings.resetwarnings()
+    warnings.simplefilter('error')
+    # what an application running with -W error still has to live with:
+    # deprecations announced by the standard library itself (the pinned tree
+    # calls datetime.utcnow()), import and resource notices
+    for c in (DeprecationWarning, PendingDeprecationWarning, ImportWarning,
+              ResourceWarning):
+        warnings.simplefilter('ignore', c)
+
+
 def exc_name(e):
     return 'EXC:' + type(e).__name__
 
